@@ -79,6 +79,19 @@ class IntMode:
     """Go integers as SMT Ints, wrapped explicitly to the machine width after every operation."""
     name = "int"
 
+    def trailing_zeros(self, x, bits):
+        if isinstance(x, int):
+            return bits if x == 0 else (x & -x).bit_length() - 1
+        e = z3.IntVal(bits)
+        for i in range(bits - 1, -1, -1):
+            e = z3.If((x / (1 << i)) % 2 == 1, z3.IntVal(i), e)
+        return e
+
+    def ones_count(self, x, bits):
+        if isinstance(x, int):
+            return bin(x & ((1 << bits) - 1)).count("1")
+        return z3.Sum([(x / (1 << i)) % 2 for i in range(bits)])
+
     def const(self, v, bits, signed):
         return norm(v, bits, signed)
 
@@ -164,6 +177,17 @@ class IntMode:
 
     def _divmod(self, op, x, y, bits, signed):
         X, Y = self.mk(x), self.mk(y)
+        if op == "%" and not isinstance(y, int):
+            # symbolic modulus: peel off the two linear cases 0 <= x < y and y <= x < 2y (cursor wrap-around),
+            # so that the non-linear mod term only matters outside them
+            if signed:
+                ax = z3.If(X >= 0, X, -X)
+                ay = z3.If(Y >= 0, Y, -Y)
+                m = ax % ay
+                gen = z3.If(X >= 0, m, -m)
+            else:
+                gen = X % Y
+            return z3.If(z3.And(X >= 0, X < Y), X, z3.If(z3.And(Y > 0, X >= Y, X - Y < Y), X - Y, gen))
         if not signed:
             return X / Y if op == "/" else X % Y
         if isinstance(y, int) and y > 0:
@@ -265,6 +289,19 @@ class IntMode:
 
 class BVMode:
     name = "bv"
+
+    def trailing_zeros(self, x, bits):
+        if isinstance(x, int):
+            return bits if x == 0 else (x & -x).bit_length() - 1
+        e = z3.BitVecVal(bits, 64)
+        for i in range(bits - 1, -1, -1):
+            e = z3.If(z3.Extract(i, i, x) == 1, z3.BitVecVal(i, 64), e)
+        return e
+
+    def ones_count(self, x, bits):
+        if isinstance(x, int):
+            return bin(x & ((1 << bits) - 1)).count("1")
+        return z3.Sum([z3.ZeroExt(63, z3.Extract(i, i, x)) for i in range(bits)])
 
     def const(self, v, bits, signed):
         return norm(v, bits, signed)
